@@ -61,6 +61,12 @@ fn scenario(rng: &mut Rng, env: &GenEnv, fams: &[(Family, u32)]) -> Scenario {
         // the counter read by the pressure loop must stay small
         peer.mask = peer.mask.min(0x03);
     }
+    if family == Family::IoPressure {
+        peer.mask = peer.mask.min(0x0f);
+        while peer.script.len() < 12 {
+            peer.script.push(rng.below(16) as u8);
+        }
+    }
     Scenario { family, program, width, peer }
 }
 
@@ -95,6 +101,8 @@ fn guard_plan(rng: &mut Rng) -> AllocPlan {
 }
 
 const EQUIV_FAMS: &[(Family, u32)] = &[
+    (Family::IoPressure, 2),
+    (Family::Brackets, 1),
     (Family::Raw, 4),
     (Family::Corpus, 3),
     (Family::Structured, 7),
@@ -104,6 +112,8 @@ const EQUIV_FAMS: &[(Family, u32)] = &[
 ];
 
 const JIT_FAMS: &[(Family, u32)] = &[
+    (Family::IoPressure, 5),
+    (Family::Brackets, 1),
     (Family::Raw, 3),
     (Family::Corpus, 2),
     (Family::Structured, 5),
@@ -120,6 +130,7 @@ const ROAM_FAMS: &[(Family, u32)] = &[
 ];
 
 const DIV_FAMS: &[(Family, u32)] = &[
+    (Family::Brackets, 5),
     (Family::Divergent, 8),
     (Family::Raw, 4),
     (Family::Structured, 2),
